@@ -211,6 +211,11 @@ func GetExecutable(c *Context, l *Logger, hash string) ([]byte, error) {
 			l.Error(":exploding_head: Failed to get data source with error: %s", c, err.Error())
 			return nil, err
 		}
+		if res.Response.IsErr() {
+			err = fmt.Errorf("query data source failed with code %d: %s", res.Response.Code, res.Response.Log)
+			l.Error(":exploding_head: Failed to get data source with error: %s", c, err.Error())
+			return nil, err
+		}
 		var dr types.QueryDataResponse
 		err = c.bandApp.AppCodec().Unmarshal(res.Response.GetValue(), &dr)
 		if err != nil {
@@ -223,7 +228,7 @@ func GetExecutable(c *Context, l *Logger, hash string) ([]byte, error) {
 		l.Debug(":card_file_box: Found data source hash: %s in cache file", hash)
 	}
 
-	l.Debug(":balloon: Received data source hash: %s content: %q", hash, resValue[:32])
+	l.Debug(":balloon: Received data source hash: %s content: %q", hash, resValue[:min(len(resValue), 32)])
 	return resValue, nil
 }
 
